@@ -123,6 +123,10 @@ func c18Case(c *mon.Ctx, r *mon.Rand) {
 		rate = 1
 	default:
 		rate = float32(r.Range(1, 1000)) / 1000
+		if r.Chance(1, 3) {
+			// rates that are not multiples of a thousandth: they reach the client as configured
+			rate = []float32{1.0 / 3, 1.0 / 131072, 1e-7, 0.999999, 0.1234567, 2.0 / 3, float32(r.Float()*0.999) + 1e-9}[r.Intn(7)]
+		}
 	}
 	effRate := rate
 	if rate == 0 {
